@@ -272,8 +272,7 @@ func GetAttr(v Value, attr Value, args ...Value) (Value, error) {
 		}
 		retval = r.MapIndex(key)
 	case reflect.Slice, reflect.Array:
-		index := int(CoerceNumber(attr))
-		if index >= 0 && index < r.Len() {
+		if index, ok := indexOf(attr, r.Len()); ok {
 			retval = r.Index(index)
 		}
 	}
@@ -306,6 +305,34 @@ func GetAttr(v Value, attr Value, args ...Value) (Value, error) {
 		retval = res[0]
 	}
 	return retval.Interface(), nil
+}
+
+// indexOf returns attr as an index into a sequence of n elements. Only a whole
+// number, or the decimal numeral of one, is an index: any other key (a word, a
+// fraction, a boolean, nil) used to be coerced to a number and silently selected
+// element 0 or 1.
+func indexOf(attr Value, n int) (int, bool) {
+	var f float64
+	switch r := reflect.ValueOf(attr); r.Kind() {
+	case reflect.Int, reflect.Int8, reflect.Int16, reflect.Int32, reflect.Int64:
+		f = float64(r.Int())
+	case reflect.Uint, reflect.Uint8, reflect.Uint16, reflect.Uint32, reflect.Uint64:
+		f = float64(r.Uint())
+	case reflect.Float32, reflect.Float64:
+		f = r.Float()
+	case reflect.String:
+		u, err := strconv.ParseUint(r.String(), 10, 31)
+		if err != nil {
+			return 0, false
+		}
+		f = float64(u)
+	default:
+		return 0, false
+	}
+	if f != float64(int(f)) || f < 0 || f >= float64(n) {
+		return 0, false
+	}
+	return int(f), true
 }
 
 // hashable reports whether v can be used as a map key without panicking: its
